@@ -1,7 +1,7 @@
 (* C01 — Durations and start times compose: sum in sequence, max in parallel.
    Only statements; every proof is a lemma of Proofs/. *)
 From Coq Require Import ZArith List.
-From MV Require Import Base.Res Model.EventTree Model.TreeOps Proofs.TreeLemmas Proofs.Lookup Proofs.History.
+From MV Require Import Base.Res Model.EventTree Model.TreeOps Proofs.TreeLemmas Proofs.Lookup Proofs.History Proofs.History2.
 Import ListNotations.
 Open Scope Z_scope.
 
@@ -81,6 +81,19 @@ Theorem C01_lookup_after_any_history : forall e eds m cs t i, wf e -> reaches e 
 Proof. exact history_lookup. Qed.
 Print Assumptions C01_lookup_after_any_history.
 Print edit. Print apply_edit. Print edit_ok. Print reaches.
+
+(* the same for histories that also use the operations modelled later: integer set / delete (ListOps.v), the container
+   duration setter and the unrestricted tie (TieAll.v) *)
+Theorem C01_history_all_edits_preserve_wellformedness : forall e eds e', wf e -> reaches2 e eds e' -> wf e'.
+Proof. exact history2_preserves_wf. Qed.
+Print Assumptions C01_history_all_edits_preserve_wellformedness.
+
+Theorem C01_lookup_after_any_history_of_all_edits : forall e eds m cs t i, wf e -> reaches2 e eds (Seq m cs) ->
+  (index_at cs t = Some i <->
+   exists c, nth_error cs i = Some c /\ dsum (firstn i cs) <= t < dsum (firstn i cs) + dur c).
+Proof. exact history2_lookup. Qed.
+Print Assumptions C01_lookup_after_any_history_of_all_edits.
+Print edit2. Print apply_edit2. Print edit2_ok. Print reaches2.
 
 (* non-vacuity: a nested list with zero-length children *)
 Example C01_example :
